@@ -65,6 +65,16 @@ def rule_a(ctx: Ctx) -> None:
         # failure of the lookup is reported
         hs = [m for m, lab in g.succ[kn] if lab == 'i' and m.kind == 'handler']
         ok = bool(hs) and all(any(True for s in h.ast.body for _ in reporter_calls(s)) for h in hs)
+        if ok:
+            # ... unconditionally: every path through the handler passes a report (not only at level 0 / in some mode)
+            for h in hs:
+                reps = [x for x in g.stmt_nodes() if any(True for e in x.exprs for _ in reporter_calls(e)) and any(x.ast is y for b in h.ast.body for y in ast.walk(b))]
+                inside = {x for x in g.nodes if x.ast is not None and any(x.ast is y for b in h.ast.body for y in ast.walk(b))}
+                first = [m for m, lab in g.succ[h] if lab in 'nTF']
+                leave = {m for x in inside for m, lab in g.succ[x] if lab in 'nTF' and m not in inside}
+                for s0 in first:
+                    if s0 in leave or g.must_pass(s0, leave, reps, kinds='nTF') is not None:
+                        ok = False
         names = {x for h in hs for x in text(h.ast.type).strip('()').replace(' ', '').split(',')}
         ok = ok and {'KeyError', 'TypeError'} <= names
         ctx.ob(rule, 'an unknown or non-derived xsi:type (KeyError / TypeError) is reported', f.loc(kc), ok,
